@@ -161,6 +161,25 @@ func families(thorough bool) []family {
 		}
 	}
 	fams = append(fams, f3)
+	// FP: leading data before the first member (self-extractor stub), offsets recorded either way
+	fp := family{name: "FP-prefixed", what: fmt.Sprintf("61 bytes of leading data x recorded offsets{file offsets, relative to the first member} x (1 member over R (%d) x ZIP64 end{none,masked} x gap before directory{no,yes} + 2 members over S (%d pairs) x directory order{body,reversed} x gap between{no,yes})", len(reducedR), len(reducedS)*len(reducedS))}
+	for _, pre := range []int{1, 2} {
+		for _, m := range reducedR {
+			for _, z := range []int{0, 1} {
+				for _, g := range []bool{false, true} {
+					fp.archives = append(fp.archives, zipgen.Archive{Members: []M{m}, ForceZip64: z, GapBeforeCD: g, Prefix: pre})
+				}
+			}
+		}
+		for _, ms := range product(reducedS, 2) {
+			for _, o := range []int{0, 1} {
+				for _, g := range []bool{false, true} {
+					fp.archives = append(fp.archives, zipgen.Archive{Members: ms, CDOrder: o, GapBetween: g, Prefix: pre})
+				}
+			}
+		}
+	}
+	fams = append(fams, fp)
 	if thorough {
 		lv4 := []archLevel{{}, {order: 1}, {order: 2}, {gapB: true}, {gapCD: true}, {z64: 1}}
 		f4 := family{name: "F4-quads", what: fmt.Sprintf("4 members, full product over %d shapes (%d) x %d archive-level settings", len(reducedS), 625, len(lv4))}
